@@ -142,6 +142,14 @@ class Smooth(Family):
                 ctx.claim("s-forwarded", ctx.eq(c["s"], s))
             gx, gy = w.get()
             ctx.claim("to_function-leaves-series-alone", same(gx, xs) and same(gy, ys))
+            # the function reflects the CURRENT series: after a later operation a new call fits the new values
+            d = ctx.real("shift")
+            w.shift_y(d)
+            w.to_function() if mode == "to_function-default" else w.to_function(s)
+            c2 = calls_of()[-1]
+            ctx.claim("to_function-not-stale-after-later-operation",
+                      len(calls_of()) >= 2 and same(c2["x"], xs) and len(c2["y"]) == L and
+                      ctx.And(*[ctx.eq(a, b + d) for a, b in zip(list(c2["y"]), ys)]))
 
 
 META = {
